@@ -47,10 +47,10 @@ check('C04', 'E1+E2', 'model_checking',
       'capped.',
       'DESIGN.md 6/C04')
 
-check('C05', 'E1+E2', 'model_checking',
+check('C05', 'E1+E2+E3', 'model_checking',
       'explicit-state BFS over event/connection histories with a dispatch/'
-      'ACK ledger, plus stateless exploration of all asyncio interleavings '
-      'of events racing disconnects',
+      'ACK ledger, plus stateless exploration of asyncio interleavings and '
+      'preemption-bounded thread schedules of events racing disconnects',
       'All histories of connect / DISCONNECT / loss / binary header / '
       'attachment (separate operations, so other clients interleave between '
       'frames) for 2-3 transports x 2 namespaces are explored to closure in '
@@ -61,7 +61,9 @@ check('C05', 'E1+E2', 'model_checking',
       'with the ledger. E2: two clients on AsyncServer, packets taken up by '
       'per-request tasks in arrival order, handlers suspended: events after '
       'a client\'s DISCONNECT invoke nothing, events before are handled '
-      'and acknowledged once, whatever the other client does.',
+      'and acknowledged once, whatever the other client does. E3: the same '
+      'scenarios on the threaded Server under the baton scheduler '
+      '(preemption-bounded).',
       'engine.io trusted; background handler tasks joined before comparing; '
       'argument shapes rotate across the product.',
       'DESIGN.md 6/C05')
@@ -127,11 +129,11 @@ check('C16', 'E1', 'model_checking',
       'generations capped at 2 in the canonical state.',
       'DESIGN.md 6/C16')
 
-check('C11', 'E1+E2', 'fault_enumeration',
+check('C11', 'E1+E2+E3', 'fault_enumeration',
       'explicit-state BFS over client histories x ending causes x injected '
       'handler faults, with a generic residue oracle; plus stateless '
-      'exploration of all asyncio interleavings of a client\'s traffic with '
-      'disconnect()/transport loss',
+      'exploration of asyncio interleavings and preemption-bounded thread '
+      'schedules of a client\'s traffic with disconnect()/transport loss',
       'Every client history up to depth 5 (quick) / 7 (thorough) over '
       '{connect accept/refuse/duplicate, event, enter_room, emit with '
       'unanswered callback, binary header / attachment, 6 malformed frames, '
@@ -144,7 +146,9 @@ check('C11', 'E1+E2', 'fault_enumeration',
       'two-point reachable-object count decides growth. E2: 7 scenarios x '
       'always_connect x handler outcome x transport writes suspended or '
       'not, every interleaving at handler entry / write / arrival, ending '
-      'in the fresh-server comparison.',
+      'in the fresh-server comparison (incl. cancellation of the tear-down '
+      'task and a bystander client). E3: five connect-vs-ending scenarios on '
+      'the threaded Server, preemption-bounded.',
       'engine.io internals excluded (dependency); depth-bounded (no '
       'closure); 2 transports, the second with a reduced alphabet.',
       'DESIGN.md 6/C11')
@@ -169,9 +173,10 @@ check('C12', 'E4', 'fault_enumeration',
       'only; its own connection may become unusable.',
       'DESIGN.md 6/C12')
 
-check('C08', 'E1', 'model_checking',
+check('C08', 'E1+E2', 'model_checking',
       'explicit-state BFS over client connection histories with a client '
-      'ledger',
+      'ledger; stateless exploration of the end of an AsyncClient connection '
+      'with suspended disconnect handlers',
       'All histories of connect() (namespace subsets and orders, auth value '
       'or callable, wait yes/no, every assignment of {accept, refuse, '
       'silence} to the requested namespaces in every arrival order), server '
